@@ -111,13 +111,20 @@ def run_case(spec, j):
 
   # a twin fitted through a preprocessor holding training + query points
   pool_q = {}
-  for qc in QCLASSES:
+  qclasses = list(QCLASSES)
+  for qc in QCLASSES + ['nullspace']:
     rng = rng_for('query2', spec['qseed'], qc)
-    T = D.query_triples(rng, f.X, spec['nq'], qc)
+    if qc == 'nullspace':
+      T = D.nullspace_triples(rng, f.X, L, spec['nq'])
+      if T is None:
+        continue
+      qclasses.append(qc)
+    else:
+      T = D.query_triples(rng, f.X, spec['nq'], qc)
     pool_q[qc] = T[:, :2]
   Xtrain = np.asarray(ds['X'])
   pool = np.vstack([Xtrain.astype(float)] +
-                   [pool_q[qc].reshape(-1, d) for qc in QCLASSES])
+                   [pool_q[qc].reshape(-1, d) for qc in qclasses])
   twins = {}
   for kind in ('array', 'callable'):
     try:
@@ -134,7 +141,7 @@ def run_case(spec, j):
   api.set_judge(j)
 
   offset = len(Xtrain)
-  for qc in QCLASSES:
+  for qc in qclasses:
     P = pool_q[qc]
     n = len(P)
     u, v = P[:, 0], P[:, 1]
